@@ -168,3 +168,32 @@ func C11_Relocate() {
 	vf.Assert(sameOutcome(base, other), p.Name+" computes the same "+what)
 	vf.Reach("relocate")
 }
+
+// C11_GenRelocate: every relocatable body of the generated grammar family
+// (gen.go) computes the same [x, y, r, m.k] at top level (variables are
+// globals), inside a function body (parameters and locals), inside a closure
+// (captured parameter and captured locals) and inside a module function.
+func C11_GenRelocate() {
+	bs := GenRelocatable()
+	body := bs[vf.Choice("body", len(bs))]
+	a, b := vf.Int64("a"), vf.Int64("b")
+	c := vf.Bool("c")
+	base := runVariant(genWrap(body, GTop), nil, a, b, c)
+	var other outcome
+	what := ""
+	switch vf.Choice("variant", 3) {
+	case 0:
+		what = "inside a function body"
+		other = runVariant(genWrap(body, GFunc), nil, a, b, c)
+	case 1:
+		what = "inside a closure (captured variables)"
+		other = runVariant("f := func(x) { y := b; r := 0; m := {k: 0}; g := func() { "+body+" }; g(); return [x, y, r, m.k] }; out := f(a)", nil, a, b, c)
+	default:
+		what = "inside a module function"
+		mods := tengo.NewModuleMap()
+		mods.AddSourceModule("m", []byte("export func(a, b, c) { x := a; y := b; r := 0; m := {k: 0}; "+body+"; return [x, y, r, m.k] }"))
+		other = runVariant(`out := import("m")(a, b, c)`, mods, a, b, c)
+	}
+	vf.Assert(sameOutcome(base, other), "gen: "+body+" computes the same "+what)
+	vf.Reach("genrelocate")
+}
